@@ -10,3 +10,13 @@ package byteslice
 //@   requires n >= 1
 //@   ensures res <= 32 && pow2(res) >= n && (res == 0 || pow2(res - 1) < n)
 //@   ensures n <= 2147483648 ==> res <= 31
+
+// Get: exactly the requested length, capacity at least that large. That the memory is not
+// shared with any slice currently handed out is sync.Pool's contract plus the Put discipline
+// of the clients (property C12); callers rely on it as an assumed clause.
+//@ func Get(size int) []byte
+//@   ensures size <= 0 ==> res == nil
+//@   ensures size > 0 ==> res != nil && len(res) == size && cap(res) >= size
+//@   assumes fresh(res)
+//
+//@ func Put(buf []byte)
